@@ -24,6 +24,12 @@ CHECKS = {
  "C06": ("fault_enumeration", "crash-point enumeration: the interposed storage engine logs every atomic write of both databases; for every prefix of the write sequence of each scenario the crash image is rebuilt, opened, audited (ledger invariants, state == canon(pointer)+pool, conservation model), resynchronised to the ledger tip and audited again",
          "Exhaustive over the write-prefix space of each generated scenario (dozens of scenarios in quick, >1000 in thorough); scenarios themselves are sampled.",
          "Trusted: one kvdb Put/Delete/Batch.Write is atomic and durable (leveldb's contract), modelled by verifmem; crashes inside one write are out of reach.", "DESIGN.md §3 C06"),
+ "C17": ("exploration", "max-monotone model of the irreversible height updated on every applied block, compared with GetMeta after every op / reopen of random histories with windows 0,1,2,3,5; every non-pruning walk is checked to keep finalised blocks on the state's chain, to be refused iff it would undo one",
+         "Runtime monitor with an executable model over thousands of operations incl. deliberate attempts to cross the finalised height; held on what was explored.",
+         "Trusted: the 40-line model in cmd/c17; the window never changes at this commit.", "DESIGN.md §3 C17"),
+ "C18": ("exploration", "recorded-answer oracle: what the live reader answered when B was the tip (recorded on a history-free node) vs CreateSnapshot(B) / CreateXMSnapshotReader(B) / tip readers for every (chain block, key) after every synchronised op of key-heavy histories with reorganisations and pending pool writes",
+         "Runtime differential monitor over ~60k snapshot reads per quick run; held on what was explored.",
+         "Trusted: the recording node runs the same xmodel live-read code (C01/C03 cover it independently).", "DESIGN.md §3 C18"),
 }
 NOT_YET = "check not built yet in this session (work in progress; see DESIGN.md for the planned monitor)"
 ALL = ["C%02d" % i for i in range(1, 21)]
